@@ -4,6 +4,10 @@ Decides: (a) every PRIMARY KEY / UNIQUE uniqueness validator, once it has fetche
 only answer Ok after looking at the table's keys (hash index lookup, unique-index data or scan):
 no shortcut path; (b) every insert/update mutation site reachable from INSERT/UPDATE entry points
 is preceded on every path by the row validators (NOT NULL/PK/UNIQUE/CHECK) of its statement.
+(b') the row that is written is a row that was validated: a function that computes new column values from SET-style
+assignments (a loop over `assignments`, or ValueUpdater::apply_assignments) and then writes a row passes a row validator
+between the computation and the write - the validation of the row that INSERT proposed says nothing about the row that
+ON DUPLICATE KEY UPDATE stores;
 (c) in the bulk INSERT ... SELECT path the switch that turns a validator
 on depends on the destination schema only, and each validator call is decided by its own flag only;
 (d) hash-index probes of the uniqueness validators are keyed in the index's column order;
@@ -27,7 +31,8 @@ constraint (PRIMARY KEY: the assignment of schema.primary_key; UNIQUE / CHECK / 
 add_check_constraint / add_foreign_key) is dominated, inside the arm, by a scan of the table's existing rows (directly
 or in a helper) from which an error exit is reachable before the installation; execute_add_column rejects a NOT NULL
 column without a value for the existing rows (an error exit decided by column_def.nullable and the row count) before
-add_column.
+add_column; execute_modify_column / execute_change_column have an error exit decided by new_column_def.nullable before
+the column's nullable flag is written.
 Does NOT decide that the hash indexes are right (C15) or CHECK expression semantics."""
 import re
 from ..engine.callgraph import CallGraph
@@ -192,6 +197,8 @@ def run(ctx):
     filtered_enumerate_rule(ctx)
     unique_index_creation_rule(ctx)
     alter_validates_existing_rows_rule(ctx)
+    modify_column_not_null_rule(ctx)
+    assignments_validated_rule(ctx)
     shared.quantifier_rule(ctx, 'C10.f', lambda f: f.nice.startswith('vibesql_storage::table::') or f.nice.startswith('vibesql_executor::insert::')
                            or f.nice.startswith('vibesql_executor::update::constraints'), control_floor=2)
 
@@ -505,3 +512,69 @@ def filtered_enumerate_rule(ctx):
                             'the surviving elements, so after a skipped element (a UNIQUE key with a NULL) every later constraint is recorded one slot too low and duplicates '
                             'within one statement are missed', f'{f.file}:{t["l"]}')
     ctx.floor("C10.e' enumerate() calls in constraint code", nenum, 4)
+
+
+def assignments_validated_rule(ctx):
+    from ..engine.symexpr import Sym
+    from ..engine.cfg import cfg
+    from ..engine.paths import search, loop_headers
+    from . import shared
+    prog = ctx.prog
+    ctx.rule("C10.b'", 'executor functions that apply assignments (iterate a slice of vibesql_ast Assignment, or call ValueUpdater::apply_assignments) and call Table::update_row*: '
+             'no path from the end of the computation to the write avoids ConstraintValidator::validate_row / RowValidator::validate')
+    VALID = re.compile(r"(update::constraints::ConstraintValidator::<'a>::validate_row|insert::row_validator::RowValidator::<'a>::validate)$")
+    n = 0
+    for f in prog.fns.values():
+        if f.unit != 'vibesql_executor' or shared.is_test(f) or f.is_closure():
+            continue
+        writes = [i for i, t in f.calls() if re.search(r'table::Table::update_row\w*$', callee_name(t) or '')]
+        if not writes:
+            continue
+        s = Sym(f)
+        g = cfg(f)
+        starts = []
+        for i, t in f.calls():
+            cn = callee_name(t) or ''
+            if cn.endswith('ValueUpdater::<\'a>::apply_assignments') or cn.endswith('apply_assignments'):
+                if t.get('to') is not None:
+                    starts.append(t['to'])
+        for h, (sw, none_t) in loop_headers(f).items():
+            it = s.op(f.blocks[h]['t']['args'][0]) if f.blocks[h]['t'].get('args') else ''
+            if re.search(r'\bassignments\b', it):
+                starts.append(none_t)
+        if not starts:
+            continue
+        n += 1
+        valid = {i for i, t in f.calls() if VALID.search(callee_name(t) or '')}
+        reached, _ = search(f, starts, valid, loop_model=False)
+        bad = [w for w in writes if w in reached]
+        short = re.sub(r"<impl [^>]*>::", '', f.nice).rsplit('::', 1)[-1]
+        ctx.instance(f"b'/{short}", {'rule': "C10.b'", 'fn': f.nice, 'loc': f.loc, 'validators_between': len(valid), 'write_reachable_without_validation': bool(bad)})
+        if bad:
+            ctx.finding(f"b'/{short}", f'{f.nice} computes a row from assignments and writes it (Table::update_row) without validating the computed row: INSERT .. ON DUPLICATE KEY '
+                        'UPDATE u = 2 stores a duplicate UNIQUE / PRIMARY KEY value (the row that was validated is the one INSERT proposed, not the one that is written)',
+                        f'{f.file}:{f.blocks[bad[0]]["t"]["l"]}')
+    ctx.floor("C10.b' functions that apply assignments and write a row", n, 2)
+
+
+def modify_column_not_null_rule(ctx):
+    from ..engine.symexpr import Sym
+    from ..engine.cfg import cfg
+    from ..engine.paths import exit_classes
+    from . import shared
+    ctx.rule('C10.i (modify)', 'execute_modify_column / execute_change_column: an error exit decided by new_column_def.nullable that is not behind the write of the nullable flag')
+    for name in ('execute_modify_column', 'execute_change_column'):
+        f = ctx.fn(EX + 'alter::columns::' + name)
+        s = Sym(f)
+        g = cfg(f)
+        err, _ = exit_classes(f)
+        writes = [bi for bi, b in enumerate(f.blocks) for st in b['s'] if 'd' in st and st['d'][1] and st['d'][1][-1] == '.nullable']
+        ok = False
+        for e in err:
+            conds = shared.deciding_conditions(f, e, s)
+            if any('new_column_def.nullable' in c for c, _v in conds) and all(not g.dominates(w, e) for w in writes):
+                ok = True
+        ctx.instance(f'i/{name}/not-null', {'rule': 'C10.i', 'fn': f.nice, 'nullable_flag_writes': len(writes), 'rejects_existing_nulls': ok})
+        if not ok:
+            ctx.finding(f'i/{name}/not-null', f'ALTER TABLE .. {"MODIFY" if "modify" in name else "CHANGE"} COLUMN c T NOT NULL makes the column NOT NULL without looking for NULLs in the '
+                        'existing rows: the table then holds NULL in a NOT NULL column', f.loc)
